@@ -4,7 +4,7 @@
    history of received lines, registrations and unregistrations, s over every client state. *)
 From Coq Require Import List Arith ZArith NArith Bool Lia.
 Import ListNotations.
-Require Import FV.Gen.C12 FV.C12.Model FV.C12.Lemmas FV.C12.Refuted.
+Require Import FV.Gen.C12 FV.C12.Model FV.C12.Lemmas.
 
 (* obligations on the facts regenerated from /repo (Gen/C12.v) *)
 Theorem C12_source_facts :
@@ -20,29 +20,27 @@ Theorem C12_cache_is_last_message : forall C imp W ops s k,
 Proof. intros. rewrite run_cache. apply cache_is_last. Qed.
 
 (* 2. Which parameter a line is about: full identifier, default accessible shorthand, unknown identifier, and
-      no identifier at all.  Full statement of the last one: a line without identifier is about no parameter.
-      The pinned code violates it for a module called "None" (Refuted.C12_refuted_missing_ident); proved with
-      exactly that guard. *)
+      no identifier at all (a line without identifier is about no parameter and is never accepted; until repository
+      commit 0fe05ab it was taken for the module called "None" and this theorem carried that guard). *)
 Theorem C12_identifier_full : forall predef classes names d m accs a act,
   colon_free d -> In (m, accs) d -> In a accs ->
   resolve (mk_client predef classes names d) act (Some (mk_ident m (a_name a))) = Some (m, internalize predef (a_name a)).
 Proof. intros; eapply resolve_full; eauto. Qed.
 Theorem C12_identifier_shorthand : forall predef classes names d m accs a act,
-  colon_free d -> In (m, accs) d -> In a accs ->
+  colon_free d -> In (m, accs) d -> In a accs -> m <> [] ->
   a_name a = (match act with AChanged => s_target | _ => s_value end) ->
   resolve (mk_client predef classes names d) act (Some m) = Some (m, a_name a).
 Proof.
-  intros predef classes names d m accs a act CF I1 I2 E. rewrite E.
+  intros predef classes names d m accs a act CF I1 I2 NE E. rewrite E.
   eapply resolve_shorthand; eauto.
 Qed.
 Theorem C12_identifier_unknown : forall predef classes names d act i,
   (forall m accs a, In (m, accs) d -> In a accs -> i <> mk_ident m (a_name a)) -> has_colon i = true ->
   resolve (mk_client predef classes names d) act (Some i) = None.
 Proof. intros; apply resolve_unknown; auto. Qed.
-Theorem C12_no_identifier_except_module_None : forall predef classes names d act,
-  colon_free d -> (forall m accs, In (m, accs) d -> m <> s_None) ->
-  resolve (mk_client predef classes names d) act None = None.
-Proof. intros; apply resolve_no_ident; auto. Qed.
+Theorem C12_no_identifier : forall C imp act now m,
+  resolve C act None = None /\ (m_ident m = None -> forall k e, decode C imp now m <> OUpd k e).
+Proof. intros; split; [apply resolve_no_ident|intros; apply decode_no_ident; auto]. Qed.
 
 (* 3. An accepted line invokes every callback registered at that moment for the node, the module or the parameter
       exactly once, updateItem before updateEvent, node then module then parameter, each with the entry that is
@@ -127,7 +125,7 @@ Print Assumptions C12_cache_is_last_message.
 Print Assumptions C12_identifier_full.
 Print Assumptions C12_identifier_shorthand.
 Print Assumptions C12_identifier_unknown.
-Print Assumptions C12_no_identifier_except_module_None.
+Print Assumptions C12_no_identifier.
 Print Assumptions C12_callbacks_once_in_order.
 Print Assumptions C12_invocations_in_arrival_order.
 Print Assumptions C12_timestamp_not_future.
@@ -135,4 +133,3 @@ Print Assumptions C12_malformed_skipped.
 Print Assumptions C12_register_immediate.
 Print Assumptions C12_e2e_write.
 Print Assumptions C12_e2e_array_exact.
-Print Assumptions C12_refuted_missing_ident.
